@@ -116,10 +116,7 @@ func c17MaskCase(s, m []byte, st, en int64) []int64 {
 // the outcome is the machine's memory (fatal, not a panic) — the generator stays out of that band (negative arguments only).
 func c17MaskSafe(s, m []byte, st, en int64) bool {
 	l := int64(utf8.RuneCount(s))
-	if st > l || en > l {
-		return true
-	}
-	ml := l - st - en // wraps like the code
+	ml := l - st - en // wraps like the code (also safe for a tree without the start/end > l guard)
 	if ml <= 0 || utf8.RuneCount(m) != 1 {
 		return true
 	}
@@ -139,6 +136,38 @@ func c17Interesting(s []byte) bool {
 }
 
 func c17Gen(c *Ctx) {
+	// ---- part 2: identifiers and near-identifiers: all strings of length <= 4 (5) over {a z _ 0 A é}
+	idAl := [][]byte{[]byte("a"), []byte("z"), []byte("_"), []byte("0"), []byte("A"), []byte("é")}
+	IL := c.N(4, 6)
+	var ids [][]byte
+	var rec2 func(cur []byte, d int)
+	rec2 = func(cur []byte, d int) {
+		ids = append(ids, append([]byte{}, cur...))
+		if d == IL {
+			return
+		}
+		for _, p := range idAl {
+			rec2(append(append([]byte{}, cur...), p...), d+1)
+		}
+	}
+	rec2(nil, 0)
+	// the round trip first: it is the clause with a specification, so a broken converter is reported through it
+	c.Each(len(ids), func(i int, t *T) {
+		s := ids[i]
+		for up := int64(0); up < 2; up++ {
+			t.Try("ident/roundtrip", c17Case(10, s, up), len(s) >= 3)
+		}
+	})
+	c.Each(len(ids), func(i int, t *T) {
+		s := ids[i]
+		nt := len(s) >= 3
+		for up := int64(0); up < 2; up++ {
+			t.Try("ident/SnakeToCamelCase", c17Case(6, s, up), nt)
+		}
+		t.Try("ident/CamelCaseToSnake", c17Case(7, s), nt)
+	})
+	c.Note(fmt.Sprintf("part 2: all %d strings of length <= %d over {a z _ 0 A é} through SnakeToCamelCase (both flags), CamelCaseToSnake and the round trip", len(ids), IL))
+
 	// ---- part 1: every string of <= 3 pieces over the small alphabet, arguments 0..runes+3 (and -1)
 	K := c17SmallAlphabet
 	L := c.N(3, 4)
@@ -186,34 +215,8 @@ func c17Gen(c *Ctx) {
 			t.Try("small/RemoveRunes", c17Case(5, s, pk[0], pk[1]), nt)
 		}
 	})
-	c.Note(fmt.Sprintf("part 1: all %d strings of <= %d pieces over %d pieces (a Z _ é € 😀 U+FFFD 0xff 0x80 E2-82), Sub start 0..n+2 x length -1..n+2, SubByDisplay limit -1..2n+1, Mask start,end 0..n+1 (mask * and one rotating other), all unary helpers", len(strs), L, K))
-
-	// ---- part 2: identifiers and near-identifiers: all strings of length <= 4 (5) over {a z _ 0 A é}
-	idAl := [][]byte{[]byte("a"), []byte("z"), []byte("_"), []byte("0"), []byte("A"), []byte("é")}
-	IL := c.N(4, 6)
-	var ids [][]byte
-	var rec2 func(cur []byte, d int)
-	rec2 = func(cur []byte, d int) {
-		ids = append(ids, append([]byte{}, cur...))
-		if d == IL {
-			return
-		}
-		for _, p := range idAl {
-			rec2(append(append([]byte{}, cur...), p...), d+1)
-		}
-	}
-	rec2(nil, 0)
-	c.Each(len(ids), func(i int, t *T) {
-		s := ids[i]
-		nt := len(s) >= 3
-		for up := int64(0); up < 2; up++ {
-			t.Try("ident/SnakeToCamelCase", c17Case(6, s, up), nt)
-			t.Try("ident/roundtrip", c17Case(10, s, up), nt)
-		}
-		t.Try("ident/CamelCaseToSnake", c17Case(7, s), nt)
-	})
 	c.SetExhaustive()
-	c.Note(fmt.Sprintf("part 2: all %d strings of length <= %d over {a z _ 0 A é} through SnakeToCamelCase (both flags), CamelCaseToSnake and the round trip", len(ids), IL))
+	c.Note(fmt.Sprintf("part 1: all %d strings of <= %d pieces over %d pieces (a Z _ é € 😀 U+FFFD 0xff 0x80 E2-82), Sub start 0..n+2 x length -1..n+2, SubByDisplay limit -1..2n+1, Mask start,end 0..n+1 (mask * and one rotating other), all unary helpers", len(strs), L, K))
 
 	// ---- part 3: random longer strings, random and extreme arguments
 	n3 := c.N(12000, 300000)
@@ -396,6 +399,6 @@ func c17Shrink(in []int64) [][]int64 {
 }
 
 func init() {
-	Register(&Prop{ID: "C17", Num: 17, SpecMode: "equal", Gen: c17Gen, Impl: c17Impl, Shrink: c17Shrink, Describe: c17Describe,
+	Register(&Prop{ID: "C17", Num: 17, SpecMode: "rel", Gen: c17Gen, Impl: c17Impl, Shrink: c17Shrink, Describe: c17Describe,
 		Rule: "part 1 (exhaustive): every string of <= 3 (thorough 4) pieces over {a Z _ é € 😀 U+FFFD 0xff 0x80 E2-82} with Sub/Mask/SubByDisplay arguments from -1/0 to beyond the rune count and all other helpers; part 2 (exhaustive): every string of length <= 4 (6) over {a z _ 0 A é} through the case converters and their round trip; part 3: random strings of up to 9 pieces (16 pieces incl. surrogate/overlong/too-large encodings, random raw bytes) with in-range, edge, MaxInt-k, 2^31..2^62 and negative arguments. distinct = distinct (op, string, arguments); non-trivial = the string has >= 2 runes and a non-ASCII byte (identifier families: length >= 3; small/Mask additionally start+end < rune count)"})
 }
